@@ -1,12 +1,82 @@
-import Mutagen.Proofs.ScanAccel
+import Mutagen.Proofs.ScanAccelMain
 /-!
 # C13 — accelerated scans equal full scans
 
 `scan cfg prev root` is the model of `core.Scan` with a baseline snapshot,
 recheck paths, a digest cache and an ignore cache (`Mutagen.Model.ScanFS`).
+
+Main theorem `accel_eq_cold`: for **every** configuration (ignorer, modes,
+behaviours, hash, fault sets), every old tree `f₀` and new tree `f₁` (directory
+roots on the same device) and every recheck list, if
+* the base is the cold scan of `f₀` with its caches (and the old root scanned
+  to a tracked directory),
+* the dirty paths (the recheck paths closed under `fastpath.Dir`, as scan.go
+  computes them) cover the changes — `Covers`: a directory present in both
+  trees whose path is not dirty is unchanged (or, on Linux, was empty), and a
+  file present in both with equal modification time, size and inode number
+  has equal content —
+* names are recorded legally and distinctly in both trees (`NamesOK`, as in C12),
+then the accelerated scan of `f₁` and the cold scan of `f₁` both fail or both
+succeed with **the same snapshot** (content and all four counters) and **the
+same digest cache**, and both ignore caches hold only the ignorer's answers
+(so they agree wherever both are defined; the accelerated one may lack keys).
+
+The hypotheses are exactly the property's: `content_change_must_be_visible`
+and `changes_must_be_reported` below show, on concrete trees, that dropping
+either one makes the accelerated scan differ from the cold one.
 -/
 namespace Mutagen.Properties.C13
 open Mutagen.Model Mutagen.Model.ScanFS Mutagen.Proofs.ScanFS Mutagen.Proofs.ScanAccel
+open Mutagen.Proofs.ScanReuse Mutagen.Proofs.ScanSim Mutagen.Proofs.ScanAccelMain
+
+theorem no_recheck_aux (cfg : Cfg) (out₀ : Out) (dev : Nat) (cs : Children) (E₀ : Entry)
+    (hroot : out₀.snapshot.content = some E₀) (hk : E₀.kind = .directory)
+    (hx : out₀.snapshot.preservesExec = cfg.preservesExec) (hd : out₀.snapshot.decomposes = cfg.decomposes) :
+    scan cfg (prevOf out₀ []) (some (.dir dev cs)) = .ok out₀ := by
+  unfold scan prevOf
+  simp [hroot, hk, hx, hd]
+
+/-- `accel_eq_cold`. -/
+theorem accel_eq_cold (cfg : Cfg) (dev : Nat) (cs₀ cs₁ : Children) (recheck dirty : List String) (out₀ : Out) (E₀ : Entry)
+    (hnames₀ : NamesOK cfg validName (.dir dev cs₀)) (hnames₁ : NamesOK cfg validName (.dir dev cs₁))
+    (hbase : scanCold cfg (some (.dir dev cs₀)) = .ok out₀)
+    (hroot : out₀.snapshot.content = some E₀) (hrootKind : E₀.kind = .directory)
+    (hrecheck : recheck ≠ []) (hdirty : dirtyClosure recheck [] = some dirty)
+    (hcovers : Covers cfg dirty "" (.dir dev cs₀) (.dir dev cs₁)) :
+    match scan cfg (prevOf out₀ recheck) (some (.dir dev cs₁)), scanCold cfg (some (.dir dev cs₁)) with
+    | .ok w, .ok c =>
+      w.snapshot = c.snapshot ∧ w.cache = c.cache ∧
+      (∀ k v, alookup k w.ignoreCache = some v → v = cfg.ignorer k.1 k.2) ∧
+      (∀ k v, alookup k c.ignoreCache = some v → v = cfg.ignorer k.1 k.2)
+    | .error e, .error e' => e = e'
+    | _, _ => False := by
+  have h := accel_eq_cold_core cfg dev cs₀ cs₁ recheck dirty out₀ E₀ hnames₀ hnames₁ hbase hroot hrootKind hrecheck hdirty hcovers
+  revert h
+  cases scan cfg (prevOf out₀ recheck) (some (.dir dev cs₁)) with
+  | error e => cases scanCold cfg (some (.dir dev cs₁)) <;> exact id
+  | ok w =>
+    cases scanCold cfg (some (.dir dev cs₁)) with
+    | error e => exact id
+    | ok c =>
+      intro h
+      exact ⟨h.1, h.2.1, fun k v hk => ignOK_lookup cfg _ h.2.2.1 k v hk, fun k v hk => ignOK_lookup cfg _ h.2.2.2 k v hk⟩
+
+/-- Without recheck paths an unchanged tree is answered from the base alone, and
+that answer is the cold scan's. -/
+theorem accel_unchanged_no_recheck (cfg : Cfg) (dev : Nat) (cs : Children) (out₀ : Out) (E₀ : Entry)
+    (hbase : scanCold cfg (some (.dir dev cs)) = .ok out₀)
+    (hroot : out₀.snapshot.content = some E₀) (hrootKind : E₀.kind = .directory) :
+    scan cfg (prevOf out₀ []) (some (.dir dev cs)) = scanCold cfg (some (.dir dev cs)) := by
+  rw [hbase]
+  have hx : out₀.snapshot.preservesExec = cfg.preservesExec ∧ out₀.snapshot.decomposes = cfg.decomposes := by
+    rw [scanCold_dir] at hbase
+    revert hbase
+    cases scanNode { cfg with deviceID := dev } {} "" true none false (.none, "") (.dir dev cs) {} with
+    | mk r d =>
+      cases r <;> simp [outOf]
+      intro h; subst h; exact ⟨rfl, rfl⟩
+  have := Mutagen.Properties.C13.no_recheck_aux cfg out₀ dev cs E₀ hroot hrootKind hx.1 hx.2
+  exact this
 
 /-- The `len(recheckPaths) == 0` shortcut (scan.go:809-811): with a baseline of
 the right root kind and the same probed behaviours and no recheck path, the
@@ -70,5 +140,41 @@ theorem changes_must_be_reported :
     digestAt (accelAfter (exCfg decAB) fsBefore ["a"] fsDeep) ["b", "a"] = some [1, 9] ∧
     digestAt (scanCold (exCfg decAB) (some fsDeep)) ["b", "a"] = some [2, 8] ∧
     digestAt (accelAfter (exCfg decAB) fsBefore ["b/a"] fsDeep) ["b", "a"] = some [2, 8] := by decide +kernel
+
+/-- The hypotheses of `accel_eq_cold` hold for `fsBefore` → `fsTouched` with recheck path `a`
+(the file `a` was rewritten and its modification time moved; `b/` is unchanged and not dirty). -/
+example :
+    NamesOK (exCfg decAB) validName fsBefore ∧ NamesOK (exCfg decAB) validName fsTouched ∧
+    isOk (scanCold (exCfg decAB) (some fsBefore)) = true ∧
+    dirtyClosure ["a"] [] = some ["", "a"] ∧
+    Covers (exCfg decAB) ["", "a"] "" fsBefore fsTouched := by
+  refine ⟨?_, ?_, by decide +kernel, by decide +kernel, ?_⟩
+  · exact exNames fsBefore _ _ rfl (by simp [NamesOK]) (exNamesLeafDir _ (fun _ _ h => by cases h))
+  · exact exNames fsTouched _ _ rfl (by simp [NamesOK]) (exNamesLeafDir _ (fun _ _ h => by cases h))
+  · have e1 : entryName (exCfg decAB) [97] = some "a" := by decide
+    have e2 : entryName (exCfg decAB) [98] = some "b" := by decide
+    simp only [fsBefore, fsTouched, Covers, CoversL, List.isEmpty_cons, Bool.false_eq_true, if_false, joinable, if_true]
+    refine ⟨?_, ?_, trivial⟩
+    · intro name hn raw₀ c₀ hm hn₀
+      rw [e1] at hn
+      cases hn
+      simp only [List.mem_cons, Prod.mk.injEq, List.not_mem_nil, or_false] at hm
+      rcases hm with ⟨rfl, rfl⟩ | ⟨rfl, rfl⟩
+      · refine ⟨?_, fun h => by simp [isDirNode] at h⟩
+        intro h; cases h
+      · rw [e2] at hn₀; exact absurd hn₀ (by decide)
+    · intro name hn raw₀ c₀ hm hn₀
+      rw [e2] at hn
+      cases hn
+      simp only [List.mem_cons, Prod.mk.injEq, List.not_mem_nil, or_false] at hm
+      rcases hm with ⟨rfl, rfl⟩ | ⟨rfl, rfl⟩
+      · rw [e1] at hn₀; exact absurd hn₀ (by decide)
+      · refine ⟨?_, fun _ _ _ => Or.inl rfl⟩
+        refine ⟨?_, trivial⟩
+        intro name hn raw₀ c₀ hm hn₀
+        simp only [List.mem_cons, Prod.mk.injEq, List.not_mem_nil, or_false] at hm
+        obtain ⟨rfl, rfl⟩ := hm
+        refine ⟨?_, fun h => by simp [isDirNode] at h⟩
+        simp
 
 end Mutagen.Properties.C13
